@@ -27,6 +27,9 @@ META = dict(
 META["text"] += ' R3 also: the node function has exactly its four parameters, no mutable default and no global state.'
 
 
+from ..canon import expand_locals  # noqa: E402
+
+
 def run(chk):
     chk.explain("R1/R2 prune tests as decision tables; R3 complete, non-aliasing recursion and leaf rendering; R4 own-index tags; R5 "
                 "translation of assertion JSON into pruning tuples.")
@@ -334,6 +337,11 @@ def run(chk):
                 cond_txt = norm(a.test)
                 break
         third_ok = isinstance(tup.elts[2], ast.Name)
+        # ... for *every* assertion of that type: the append sits directly in the branch of the type test and nothing before it in
+        # that branch can leave the iteration (an assertion that is skipped prunes nothing, and shifts the numbers of the others)
+        type_if = next((a for a in ancestors(x) if isinstance(a, ast.If) and "assertion_type" in norm(a.test)), None)
+        skips = [n_ for s_ in body if s_.lineno < st.lineno for n_ in ast.walk(s_) if isinstance(n_, (ast.Continue, ast.Break, ast.Return, ast.Raise))]
+        third_ok = third_ok and blk is type_if and not skips
         if norm(x.func) == f"{WOL}.append" and "WINNER_ONLY" in cond_txt:
             ok_wo = e[0] == f"{DET}['loser']" and e[1] == f"{DET}['winner']" and third_ok
         if norm(x.func) == f"{IRVL}.append" and "IRV_ELIMINATION" in cond_txt:
@@ -342,6 +350,30 @@ def run(chk):
            "a WINNER_ONLY assertion becomes the tuple (loser, winner, proved)", node=pa, strength="N")
     chk.ob("C20.R5", f"{VIS}:parseAssertions", "irv-elimination->(winner,set(eliminated),proved)", ok_irv,
            "an IRV_ELIMINATION assertion becomes (winner, set(already_eliminated), proved)", node=pa, strength="N")
+    # the candidates the trees range over are the contest's non-winners, every one of them: the (id, name) list handed on is a map
+    # over the ids given -- one pair per id, in order, named or not (an id missing from the manifest still is a candidate)
+    if chk.idx.has_func(VIS, "findListCandidateNames"):
+        fl = chk.fn(VIS, "findListCandidateNames", canonical=True)
+        ids = fl.args.args[0].arg if fl.args.args else "IDList"
+        rets_ = [r for r in walk_local(fl) if isinstance(r, ast.Return) and r.value is not None]
+        ok_map = False
+        shape = None
+        if len(rets_) == 1:
+            v = expand_locals(rets_[0].value, fl, stop=(ids,))
+            if isinstance(v, ast.Call) and norm(v.func) == "list" and len(v.args) == 1:
+                v = v.args[0]
+            shape = norm(v)[:120]
+            if isinstance(v, ast.Call) and norm(v.func) == "map" and len(v.args) == 2 and isinstance(v.args[0], ast.Lambda) and norm(v.args[1]) == ids:
+                lam = v.args[0]
+                p0 = lam.args.args[0].arg if lam.args.args else None
+                ok_map = isinstance(lam.body, ast.Tuple) and len(lam.body.elts) == 2 and norm(lam.body.elts[0]) == p0
+            elif isinstance(v, (ast.ListComp, ast.GeneratorExp)) and len(v.generators) == 1:
+                g_ = v.generators[0]
+                ok_map = not g_.ifs and norm(g_.iter) == ids and isinstance(v.elt, ast.Tuple) and len(v.elt.elts) == 2 \
+                    and norm(v.elt.elts[0]) == norm(g_.target)
+        chk.ob("C20.R5", f"{VIS}:findListCandidateNames", "one-pair-per-candidate-id", ok_map,
+               "the list of (id, name) pairs has exactly one pair for every id handed in, in order, whether or not the manifest knows "
+               "the id: no candidate drops out of the trees", node=fl, strength="N", returned=shape)
     # the driver builds S = all candidates except the alternative winner
     bp = inline_aliases(chk.fn(VIS, "buildPrintedResults"))
     calls = [x for x in ast.walk(bp) if isinstance(x, ast.Call) and norm(x.func) == fn.name]
